@@ -360,11 +360,28 @@ impl ImportRoot {
     }
 }
 
-#[derive(Hash, Debug, PartialEq, Eq)]
+#[derive(Debug)]
 struct FileInclude {
     filename: Utf8PathBuf,
     included_by_doc_idx: Option<usize>,
     import_root: Option<ImportRoot>,
+}
+
+// A file is loaded once, no matter how many documents list it (the first one that does is
+// recorded as the including document).
+impl PartialEq for FileInclude {
+    fn eq(&self, other: &Self) -> bool {
+        self.filename == other.filename && self.import_root == other.import_root
+    }
+}
+
+impl Eq for FileInclude {}
+
+impl std::hash::Hash for FileInclude {
+    fn hash<H: std::hash::Hasher>(&self, state: &mut H) {
+        self.filename.hash(state);
+        self.import_root.hash(state);
+    }
 }
 
 impl FileInclude {
